@@ -15,13 +15,14 @@ mkdir -p $D
 cp $SRC/$N/patch.diff $D/patch.diff; cp $SRC/$N/demo.py $D/demo.py; cp $SRC/$N/meta.json $D/agent_meta.json 2>/dev/null
 git -C /repo worktree remove --force $WT >/dev/null 2>&1
 git -C /repo worktree add -f $WT HEAD -q || exit 2
-R=$D/result.txt; : > $R
+R=$D/result.txt; OLD_SUITE=$(grep "^suite: " $R 2>/dev/null | head -1); : > $R
 echo "repo_head=$(git -C /repo rev-parse --short HEAD)" >> $R
 ( cd $WT && PYTHONPATH=$WT /venv/bin/python $D/demo.py >/dev/null 2>&1; echo "demo_without_change_rc=$?" >> $R )
 if ! git -C $WT apply $D/patch.diff 2>>$R; then echo "patch_applies=no" >> $R; git -C /repo worktree remove --force $WT; exit 1; fi
 echo "patch_applies=yes" >> $R
 ( cd $WT && PYTHONPATH=$WT /venv/bin/python -c "import unified_planning" >/dev/null 2>&1; echo "import_rc=$?" >> $R )
 ( cd $WT && PYTHONPATH=$WT /venv/bin/python $D/demo.py >/dev/null 2>&1; echo "demo_with_change_rc=$?" >> $R )
+if [ "${SKIP_SUITE:-0}" = "1" ] && [ -n "$OLD_SUITE" ]; then echo "$OLD_SUITE (from the earlier confirmation run)" >> $R; fi
 if [ "${SKIP_SUITE:-0}" != "1" ]; then
   ( cd $WT && PYTHONPATH=$WT timeout 5400 /venv/bin/python -m pytest -q -p no:cacheprovider --timeout=900 2>&1 | tail -1 | sed 's/^/suite: /' >> $R )
 fi
